@@ -177,9 +177,24 @@ def r2_history_index_is_state_index(ctx, rid):
                 continue        # idx = idx[0]: narrowing of the same range
             else:
                 roots.append(v)
+        def is_loop_var(nm: ast.AST) -> bool:
+            # the loop's own variable, possibly through plain aliases (`var = hvar`)
+            for _ in range(4):
+                if not isinstance(nm, ast.Name):
+                    return False
+                if nm.id == var_name:
+                    ds = rd.defs_reaching(nm)
+                    if all(d is outer for d in ds):
+                        return True
+                from engine.util import single_def_value
+                v = single_def_value(ctx, f, nm)
+                if v is None:
+                    return False
+                nm = v
+            return False
         ok_idx = bool(roots) and all(
             r is not None and isinstance(r, ast.Subscript) and is_attr_of(r.value, selfn, "_state_var_indices")
-            and isinstance(r.slice, ast.Name) and r.slice.id == var_name and contains(outer, r) for r in roots)
+            and is_loop_var(r.slice) and contains(outer, r) for r in roots)
     facts = {"state_idx_defs": chain, "outer_loop": norm(outer)}
     if ok_idx:
         ctx.ok(rid, f, call, f"state_idx derives from _state_var_indices[{var_name}] of the loop's own variable", facts, label="state_idx provenance")
